@@ -20,8 +20,8 @@ EXTENDS BrokerAbs, Json, IOUtils, TLCExt
 
 Traces == JsonDeserialize(IOEnv.TRACE_FILE)
 
-VARIABLES tid, l, calls, chk, devs, taint, rdl, rdls, dead, unsure, enqAt, ovt, mvAt, hot, retdl
-tvars == <<tid, l, calls, chk, devs, taint, rdl, rdls, dead, unsure, enqAt, ovt, mvAt, hot, retdl>>
+VARIABLES tid, l, calls, chk, devs, taint, rdl, rdls, dead, unsure, enqAt, ovt, mvAt, hot, retdl, arrAt
+tvars == <<tid, l, calls, chk, devs, taint, rdl, rdls, dead, unsure, enqAt, ovt, mvAt, hot, retdl, arrAt>>
 allvars == <<vars, tvars>>
 
 Ev == Traces[tid][l]
@@ -34,16 +34,16 @@ Call(k) == IF k \in DOMAIN calls THEN calls[k] ELSE NoCall
 Done(k) == calls' = [calls EXCEPT ![k].done = TRUE]
 
 TInit == /\ Init
-         /\ tid \in 1..Len(Traces) /\ l = 1 /\ calls = <<>> /\ chk = {} /\ devs = {} /\ taint = {} /\ rdl = [i \in Ids |-> 0] /\ rdls = [i \in Ids |-> 0] /\ dead = {} /\ unsure = {} /\ enqAt = [i \in Ids |-> 0] /\ ovt = [i \in Ids |-> 0] /\ mvAt = [i \in Ids |-> 0] /\ hot = [c \in Consumers |-> [p \in 0..10 |-> 0]] /\ retdl = [i \in Ids |-> 0]
+         /\ tid \in 1..Len(Traces) /\ l = 1 /\ calls = <<>> /\ chk = {} /\ devs = {} /\ taint = {} /\ rdl = [i \in Ids |-> 0] /\ rdls = [i \in Ids |-> 0] /\ dead = {} /\ unsure = {} /\ enqAt = [i \in Ids |-> 0] /\ ovt = [i \in Ids |-> 0] /\ mvAt = [i \in Ids |-> 0] /\ hot = [c \in Consumers |-> [p \in 0..10 |-> 0]] /\ retdl = [i \in Ids |-> 0] /\ arrAt = [i \in Ids |-> 0]
          /\ TLCSet(tid, 1)
 
 THdr == /\ Is("hdr") /\ Step
         /\ chk' = ToSet(Ev.chk) /\ devs' = ToSet(Ev.devs)
-        /\ UNCHANGED <<vars, calls, taint, rdl, rdls, dead, unsure, enqAt, ovt, mvAt, hot, retdl>>
+        /\ UNCHANGED <<vars, calls, taint, rdl, rdls, dead, unsure, enqAt, ovt, mvAt, hot, retdl, arrAt>>
 
 TCons == /\ Is("cons") /\ Step
          /\ cons' = [cons EXCEPT ![Ev.c] = [on |-> FALSE, q |-> Ev.q, cat |-> Ev.cat, topics |-> ToSet(Ev.topics)]]
-         /\ UNCHANGED <<now, st, loc, meta, holder, origin, deliv, ret, norder, transit, pend, calls, chk, devs, taint, rdl, rdls, dead, unsure, enqAt, ovt, mvAt, hot, retdl>>
+         /\ UNCHANGED <<now, st, loc, meta, holder, origin, deliv, ret, norder, transit, pend, calls, chk, devs, taint, rdl, rdls, dead, unsure, enqAt, ovt, mvAt, hot, retdl, arrAt>>
 
 (* C05 bounded latency: a consume() call of a normal consumer that has been waiting since before *)
 (* message i fell due is not still empty-handed after i's deadline (dl = due + latency bound),    *)
@@ -70,7 +70,7 @@ Starved(t, headOfLine) ==
 TTime == /\ Is("time") /\ Step
          /\ Ev.now >= now /\ now' = Ev.now
          /\ ("latency" \in chk => (~Starved(Ev.now, FALSE) \/ (Dev("rabbit_head_of_line") /\ ~Starved(Ev.now, TRUE))))
-         /\ UNCHANGED <<st, loc, meta, holder, origin, deliv, ret, cons, norder, transit, pend, calls, chk, devs, taint, rdl, rdls, dead, unsure, enqAt, ovt, mvAt, hot, retdl>>
+         /\ UNCHANGED <<st, loc, meta, holder, origin, deliv, ret, cons, norder, transit, pend, calls, chk, devs, taint, rdl, rdls, dead, unsure, enqAt, ovt, mvAt, hot, retdl, arrAt>>
 
 TBegin == /\ Is("begin") /\ Step
           /\ calls' = (Ev.k :> [op |-> Ev.op, c |-> Ev.c, i |-> Ev.i, m |-> MetaOf(Ev.m), done |-> FALSE, t0 |-> now, l0 |-> l,
@@ -80,7 +80,7 @@ TBegin == /\ Is("begin") /\ Step
           \* the fate of a message that is in flight while its queue is flushed / deleted is broker-specific (it goes with
           \* the queue now, or later when its holder settles it, or stays): it is followed, but not judged, from here on
           /\ taint' = IF Ev.op = "flush" THEN taint \cup InFlight(Ev.m.q) ELSE taint
-          /\ UNCHANGED <<chk, devs, rdl, rdls, dead, unsure, enqAt, ovt, mvAt, hot, retdl>>
+          /\ UNCHANGED <<chk, devs, rdl, rdls, dead, unsure, enqAt, ovt, mvAt, hot, retdl, arrAt>>
 
 -----------------------------------------------------------------------------
 (* Deviation actions: behaviours of the pinned code that the contract forbids.  They are        *)
@@ -172,6 +172,8 @@ OvtAfter(i) ==
     IF loc[i] \in {U("n"), U("d")} /\ loc'[i] = U("p") /\ holder'[i] # NoC /\ cons[holder'[i]].cat = "n"
     THEN [j \in Ids |-> IF /\ j # i /\ Live(j) /\ holder[j] = NoC /\ (loc[j] = U("n") \/ loc[j] = U("d"))
                           /\ meta[j].due # NoTime /\ meta[j].due <= now /\ enqAt[i] > meta[j].due
+                          /\ enqAt[i] > arrAt[j]      \* (a later arrival: it came after j fell due AND after j last came to wait -- what was
+                                                      \*  already waiting when a message is returned behind it does not overtake it)
                           /\ Matches(holder'[i], j) /\ ~Overdue(j)
                        THEN ovt[j] + 1 ELSE ovt[j]]
     ELSE [j \in Ids |-> IF j = i THEN 0 ELSE ovt[j]]
@@ -296,6 +298,8 @@ TMove ==
     /\ mvAt' = [mvAt EXCEPT ![Ev.i] = l] /\ hot' = hot
     \* the latency clock of a message that comes back to a waiting place (returned, reclaimed, re-queued) runs from that moment
     /\ retdl' = [retdl EXCEPT ![Ev.i] = IF Ev.ldl # 0 THEN Ev.ldl ELSE 0]
+    \* when the message last came to a waiting place from somewhere else (enqueued, re-queued, returned, reclaimed)
+    /\ arrAt' = IF (loc[Ev.i].p > 0 \/ loc[Ev.i] = Zero) /\ Vec(Ev.v).p = 0 /\ Vec(Ev.v) # Zero THEN [arrAt EXCEPT ![Ev.i] = now] ELSE arrAt
     \* (the Redis fetch-window defect, once listed as a known finding, also explains unbounded overtaking)
     /\ (("starve" \in chk /\ ~Dev("redis_lifo_window")) => \A j \in Ids : ovt'[j] <= StarveBound)
 
@@ -341,7 +345,7 @@ TEnd ==
             [] OTHER -> UNCHANGED vars /\ UNCHANGED <<calls, taint>>
     \* a start() that was interrupted may or may not have taken effect: that consumer is not known to be listening
     /\ unsure' = IF (Call(Ev.k).op = "start" /\ Ev.st # "ok") THEN unsure \cup {Call(Ev.k).c} ELSE unsure
-    /\ UNCHANGED <<chk, devs, rdl, rdls, dead, enqAt, ovt, mvAt, retdl>>
+    /\ UNCHANGED <<chk, devs, rdl, rdls, dead, enqAt, ovt, mvAt, retdl, arrAt>>
     \* C15 at the hand-over: the messages a consumer has taken (prefetched) reach its client in the order they were taken -- a
     \* message is not handed over after one of the same priority that the consumer took later (hot: per consumer and priority,
     \* the latest take position among the messages handed over so far; a returned message gets a new position when taken again)
@@ -353,12 +357,12 @@ TEnd ==
 (* full observation of the broker: the contract state must agree with it for every id *)
 TObs == /\ Is("obs") /\ Step
         /\ \A j \in Ids : loc[j] = (IF j <= Len(Ev.v) THEN Vec(Ev.v[j]) ELSE Zero)
-        /\ UNCHANGED <<vars, calls, chk, devs, taint, rdl, rdls, dead, unsure, enqAt, ovt, mvAt, hot, retdl>>
+        /\ UNCHANGED <<vars, calls, chk, devs, taint, rdl, rdls, dead, unsure, enqAt, ovt, mvAt, hot, retdl, arrAt>>
 
 (* the process owning these consumers died without any cleanup *)
 TCrash == /\ Is("crash") /\ Step
           /\ dead' = dead \cup ToSet(Ev.cs)
-          /\ UNCHANGED <<vars, calls, chk, devs, taint, rdl, rdls, unsure, enqAt, ovt, mvAt, hot, retdl>>
+          /\ UNCHANGED <<vars, calls, chk, devs, taint, rdl, rdls, unsure, enqAt, ovt, mvAt, hot, retdl, arrAt>>
 
 TraceConsCfgs == {[c \in Consumers |-> [on |-> FALSE, q |-> 0, cat |-> "n", topics |-> {}]]}
 TNext == THdr \/ TCrash \/ TObs \/ TCons \/ TTime \/ TBegin \/ TMove \/ TEnd
